@@ -147,7 +147,7 @@ def drive(recipe):
     elif k == "shift":
         c, kv, noise, route = recipe["c"], recipe["kv"], recipe["noise"], recipe["route"]
         t = {"k": k, "c": c, "kv": kv, "noise": noise, "route": route, "exc": "", "code": -1, "text": "",
-             "eq": False, "hasheq": False}
+             "eq": False, "hasheq": False, "isid": False}
         try:
             base = SymmetryOperation.from_integer_code(c)
             delta = np.array(kv, dtype=float) + np.array(NOISE[noise], dtype=float)
@@ -166,6 +166,7 @@ def drive(recipe):
                 t["code"], t["text"] = code, text
                 t["eq"] = bool(op == ref and op3 == ref and int(op.integer_code) == code == int(op3.integer_code))
                 t["hasheq"] = bool(hash(op) == hash(ref) == hash(op3))
+                t["isid"] = bool(op.is_identity()) and bool(op3.is_identity()) if c == 16484 else bool(op.is_identity() or op3.is_identity())
                 raise StopIteration
             if route == "ctor":
                 op = SymmetryOperation(np.array(base.rotation), np.array(base.translation) + delta)
@@ -181,6 +182,7 @@ def drive(recipe):
             t["text"] = str(op)
             t["eq"] = bool(op == ref)
             t["hasheq"] = bool(hash(op) == hash(ref))
+            t["isid"] = bool(op.is_identity())
         except StopIteration:
             pass
         except Exception as e:
@@ -241,6 +243,35 @@ def drive(recipe):
                     cr.unit_cell_atoms()
                     cr.choose_trigonal_lattice(choice)
                     uc, sg = cr.unit_cell, cr.space_group
+                if recipe.get("listed"):
+                    # the operations as a file in an untabulated setting lists them (origin moved by 1/4,0,0; last first): the
+                    # crystal takes the list over as given, and the k-th Cartesian operation belongs to the k-th listed one
+                    ops12 = []
+                    for o_ in reversed(sg.symmetry_operations):
+                        Rm = np.rint(np.asarray(o_.rotation)).astype(int)
+                        t12 = np.rint(np.asarray(o_.translation, dtype=float) * 12).astype(int)
+                        s12 = np.array([3, 0, 0])
+                        ops12.append(SymmetryOperation(Rm.astype(float), ((t12 + s12 - Rm @ s12) % 12) / 12.0))
+                    cif = ["data_listed", "_cell_length_a %r" % cell[0], "_cell_length_b %r" % cell[1], "_cell_length_c %r" % cell[2],
+                           "_cell_angle_alpha %r" % cell[3], "_cell_angle_beta %r" % cell[4], "_cell_angle_gamma %r" % cell[5],
+                           "loop_", "_symmetry_equiv_pos_as_xyz"] + ["'%s'" % str(o_) for o_ in ops12] + [
+                           "loop_", "_atom_site_label", "_atom_site_type_symbol", "_atom_site_fract_x", "_atom_site_fract_y",
+                           "_atom_site_fract_z", "C1 C 0.1 0.2 0.3", ""]
+                    cr = Crystal.from_cif_string("\n".join(cif))
+                    uc, sg = cr.unit_cell, cr.space_group
+                    if len(sg.symmetry_operations) != len(ops12):
+                        raise ValueError("OperationListNotTakenOver")
+                    # (the moved origin may happen to be another tabulated setting: then the crystal lists that setting's operations)
+                    idx = idx % len(ops12)
+                    c = int(sg.symmetry_operations[idx].integer_code)
+                    t["c"] = c
+                    op = SymmetryOperation.from_integer_code(c)
+                    t["out3"] = [grid_vec(row, n, 1e-9)[0] for row in op.apply(x)]
+                    t["out4"] = [grid_vec(row, n, 1e-9)[0] for row in op.apply(np.c_[x, np.ones(len(x))])]
+                    t["call"] = [grid_vec(row, n, 1e-9)[0] for row in op(x)]
+                    for key, arr in (("out4w2", np.c_[2 * x, 2 * np.ones(len(x))]), ("out4w3", np.c_[3 * x, 3 * np.ones(len(x))]),
+                                     ("out4d", np.c_[x, np.zeros(len(x))])):
+                        t[key] = [grid_vec(row, n, 1e-9)[0] for row in op.apply(arr)]
                 rc, tc = cr.cartesian_symmetry_operations()[idx]
                 assert int(sg.symmetry_operations[idx].integer_code) == c
                 cart = uc.to_cartesian(x)
@@ -296,6 +327,11 @@ def run(ctx):
         c = rng.choice(nz) if rng.random() < 0.7 else rng.randrange(NCODES)
         recipes.append({"k": "shift", "c": c, "kv": [rng.randint(-3, 3) for _ in range(3)],
                         "noise": rng.choice(list(NOISE)), "route": rng.choice(["ctor", "add", "sub", "inv", "func"])})
+    # the identity and the pure centring translations, with every kind of noise and by every route
+    for c in (16484, 16484 + 19683 * (6 * 144 + 6 * 12 + 6), 16484 + 19683 * (6 * 12 + 6), 16484 + 19683 * (8 * 144 + 4 * 12 + 4), 3198):
+        for noise in NOISE:
+            for route in ("ctor", "add", "sub", "inv", "func"):
+                recipes.append({"k": "shift", "c": c, "kv": [rng.randint(-2, 2) for _ in range(3)], "noise": noise, "route": route})
     for _ in range(ctx.pick(600, 6000)):
         n = rng.choice([12, 24, 48])
         pts = [[rng.randint(-2 * n, 2 * n) for _ in range(3)] for _ in range(rng.randint(1, 6))]
@@ -320,6 +356,9 @@ def run(ctx):
                 cell[3:] = [90.0, 90.0, 120.0]
             recipes.append({"k": "apply", "c": r["ops"][idx], "n": n, "pts": pts,
                             "sg": [r["number"], r["choice"], idx, cell]})
+            if len(r["ops"]) > 1 and rng.random() < 0.25:
+                recipes.append({"k": "apply", "c": r["ops"][idx], "n": n, "pts": pts, "listed": True,
+                                "sg": [r["number"], r["choice"], idx, cell], "src": "operation list of an untabulated setting"})
             if r["number"] in (146, 148, 155, 160, 161, 166, 167) or rng.random() < 0.02:
                 rr = r if r["choice"] in ("H", "R") else rng.choice([q for q in rows if q["choice"] in ("H", "R")])
                 idx = rng.randrange(len(rr["ops"]))
